@@ -62,6 +62,25 @@ def run(rep, props, replay=None):
             warnings.simplefilter("ignore")
             Csurf = np.asarray(d.center().covariance(center=False).values)[0]
         cs = max(1e-300, float(np.max(np.abs(Csurf))))
+        # a second grid with the SAME number of points and the SAME end points, other interior points (the same curve values):
+        # nothing computed for the first grid may be reused for it
+        if m >= 4:
+            x2 = x.copy()
+            x2[1:-1] = x[1:-1] + np.round(0.375 * np.diff(x)[1:] * 1024) / 1024
+            d2 = fd.dense(x2, X)
+            with warnings.catch_warnings():
+                warnings.simplefilter("ignore")
+                f2 = UFPCA(n_components=2, method="covariance")
+                f2.fit(d2, method_smoothing=None)
+            lam2 = np.asarray(f2.eigenvalues, float)
+            phi2 = np.asarray(f2.eigenfunctions.values, float)
+            ps2 = max(1.0, float(np.max(np.abs(phi2))))
+            qw2 = f"(trapz_w opsQ {C.qlist(x2)})"
+            key2 = (kind, X.tobytes(), "covariance/second-grid", "2")
+            ta = runq.add(f"orthonormal_w {C.qlit(1e-7 * ps2 * ps2 * max(1.0, np.ptp(x2)))} {qw2} {C.qmat(phi2)}")
+            tb = runq.add(f"eigen_equation {C.qlit(1e-7 * cs * ps2 * max(1.0, np.ptp(x2)))} {qw2} {C.qmat(Csurf)} {C.qlist(lam2)} {C.qmat(phi2)}")
+            todo += [(ta, "cov: eigenfunctions orthonormal for the trapezoid weights (second grid, same size and end points)", key2, 2),
+                     (tb, "cov: integral eigen-equation (second grid, same size and end points)", key2, 2)]
         for ncomp in ([1, 2, None] if quick else [1, 2, 3, min(5, n - 1), None]):
             if isinstance(ncomp, int) and ncomp > min(n - 1, m):
                 continue
